@@ -3,6 +3,7 @@ import Percival.Proofs.Sha1Refines
 import Percival.Proofs.Md5Refines
 import Percival.Proofs.Pbkdf2Stream
 import Percival.Proofs.CrcMain
+import Percival.Proofs.HashStep
 /-!
 # C01 — digests, HMACs, PBKDF2 and CRC32C equal their specified functions
 
@@ -230,5 +231,96 @@ theorem gen_md5_tables : Gen.Md5.stepT = Spec.Md5.T ∧ Gen.Md5.stepShift = Spec
     (List.range 64).map (fun i => (i * ((Gen.Md5.wordIndex.getD (Gen.Md5.stepKind.getD i 0) (0, 0)).1)
       + (Gen.Md5.wordIndex.getD (Gen.Md5.stepKind.getD i 0) (0, 0)).2) % 16) = Spec.Md5.kTable := by decide
 theorem gen_crc_poly : Gen.Crc32c.poly = Spec.Crc32c.castagnoliLow := by decide
+
+/-! ## The executable: every line `pmodel hash` prints
+
+`pmodel hash` parses a line into a `Model.HashStep.Op`, applies `Model.HashStep.stepOp` and prints the
+`Model.HashStep.Out` (`Driver/Hash.lean`: `parse`, `render`, nothing else).  `stepOp` computes the L1 part of a
+digest line with the `Spec` function on the bytes *it recorded* and the L2 part by finalising the model context
+*it carried along*.  The theorems below say that the two are equal in every line of every run, because
+every reachable state satisfies `StOk`: each context is `_Init` followed by `_Update` calls over exactly the
+recorded bytes (`Streamed` / `HStreamed`; for CRC32C the same with `CRC32C_Update`), unless its bit counter was
+forged by the white-box op `addcnt` — then `fin` prints `forged` and no L1 part (`Out.forged`). -/
+
+open Percival.Model.HashStep in
+/-- **One line.**  From a state satisfying the invariant, any op (PBKDF2 with `c ≥ 1`) leads to a state
+satisfying it, and if the line printed is a digest line (`<l1> | d=<l2>`: `fin`, `buf`, `hmac`, `hmacfin`,
+`pbkdf2`) then the model's digest is the specified one; likewise for a CRC line (`crc`, `crcfin`). -/
+theorem exec_step_l1_eq_l2 (st : St) (h : StOk st) (op : Op) (hop : InContract op) :
+    StOk (stepOp st op).1 ∧
+    (∀ l1 l2, (stepOp st op).2 = .digest l1 l2 → l2 = some l1) ∧
+    (∀ l1 s l2, (stepOp st op).2 = .crc l1 s l2 → l2 = l1) := by
+  obtain ⟨h1, h2⟩ := Proofs.HashStep.stepOp_ok st h op hop
+  refine ⟨h1, ?_, ?_⟩
+  · intro l1 l2 e; rw [e] at h2; exact h2
+  · intro l1 s l2 e; rw [e] at h2; exact h2
+
+open Percival.Model.HashStep in
+/-- **Every run: L1 digest = L2 digest unless forged.**  For every op sequence from the initial state, the
+final state satisfies the invariant and in every digest line and every CRC line printed on the way the L2
+part (the model's streaming context finalised) is the L1 part (the Spec's value of the recorded bytes).  A `fin`
+of a forged context prints `Out.forged`, which has no L1 part. -/
+theorem exec_digest_l1_eq_l2 (ops : List Op) (hops : ∀ op ∈ ops, InContract op) :
+    StOk (runOps {} ops).1 ∧
+    ∀ o ∈ (runOps {} ops).2,
+      (∀ l1 l2, o = .digest l1 l2 → l2 = some l1) ∧ (∀ l1 s l2, o = .crc l1 s l2 → l2 = l1) := by
+  obtain ⟨h1, h2⟩ := Proofs.HashStep.runOps_ok ops {} Proofs.HashStep.st_init hops
+  refine ⟨h1, fun o ho => ⟨?_, ?_⟩⟩
+  · intro l1 l2 e; have := h2 o ho; rw [e] at this; exact this
+  · intro l1 s l2 e; have := h2 o ho; rw [e] at this; exact this
+
+open Percival.Model.HashStep in
+/-- non-vacuity: `init`, an update of 60 bytes, an update of 10 bytes (crossing the block boundary), `fin`
+prints a digest line — SHA-256("a"⁶⁰"b"¹⁰) = 6c058b95… on both sides -/
+example : (runOps {} [.slot .sha256 .init, .slot .sha256 (.upd (List.replicate 60 0x61)),
+      .slot .sha256 (.upd (List.replicate 10 0x62)), .slot .sha256 .fin]).2.getLast? =
+    some (.digest
+      [108, 5, 139, 149, 43, 220, 211, 217, 28, 178, 163, 152, 193, 11, 50, 69, 243, 150, 249, 15, 132, 169, 208, 248,
+        29, 216, 15, 195, 132, 57, 236, 190]
+      (some [108, 5, 139, 149, 43, 220, 211, 217, 28, 178, 163, 152, 193, 11, 50, 69, 243, 150, 249, 15, 132, 169, 208,
+        248, 29, 216, 15, 195, 132, 57, 236, 190])) := by decide +kernel
+
+open Percival.Model.HashStep in
+/-- non-vacuity of the invariant: a state with an open SHA-1 context, an open HMAC-MD5 context and an open CRC -/
+example : let st := (runOps {} [.slot .sha1 .init, .slot .sha1 (.upd [1, 2, 3]), .slot .md5 (.hmacinit [7]),
+      .slot .md5 (.hmacupd [8, 9]), .crcinit, .crcupd [4, 5, 6, 7, 8]]).1
+    StOk st ∧ (st.s1.h.map (·.2)) = some [1, 2, 3] ∧ (st.s5.m.map (·.2)) = some ([7], [8, 9]) ∧
+      (st.crc.map (·.2)) = some [4, 5, 6, 7, 8] :=
+  ⟨(exec_digest_l1_eq_l2 _ (fun _ h => by simp at h; rcases h with rfl | rfl | rfl | rfl | rfl | rfl <;> trivial)).1,
+   by decide +kernel, by decide +kernel, by decide +kernel⟩
+
+open Percival.Model.HashStep in
+/-- **The recorded bytes are the bytes fed.**  From *any* state: `init a`, one `upd a` per chunk (any partition),
+then `fin a` prints the specified digest of the concatenation of the chunks, at L1 and at L2. -/
+theorem exec_stream_digest (st : St) (a : AlgId) (chunks : List Bytes) :
+    (stepOp (runOps st (streamOps a chunks)).1 (.slot a .fin)).2
+      = .digest (a.spec chunks.flatten) (some (a.spec chunks.flatten)) :=
+  Proofs.HashStep.stream_fin st a chunks
+
+open Percival.Model.HashStep in
+example : (stepOp (runOps {} (streamOps .md5 [[0x61], [], [0x62, 0x63]])).1 (.slot .md5 .fin)).2
+    = .digest (Spec.Md5.hash [0x61, 0x62, 0x63]) (some (Spec.Md5.hash [0x61, 0x62, 0x63])) :=
+  exec_stream_digest _ _ _
+
+open Percival.Model.HashStep in
+/-- **`forged` only after `addcnt`.**  A run without `addcnt a` leaves `a`'s context unforged, so its `fin` lines
+are digest lines (judged at L1), never `forged` lines. -/
+theorem exec_forged_only_after_addcnt (ops : List Op) (a : AlgId) (hops : ∀ k, Op.slot a (.addcnt k) ∉ ops) :
+    (runOps {} ops).1.forged a = false :=
+  Proofs.HashStep.runOps_forged ops {} a hops (by cases a <;> rfl)
+
+open Percival.Model.HashStep in
+example : (∀ k, Op.slot .sha1 (.addcnt k) ∉ [Op.slot .sha256 .init, .slot .sha256 (.addcnt 3), .slot .sha1 .init]) ∧
+    (runOps {} [.slot .sha256 .init, .slot .sha256 (.addcnt 3), .slot .sha1 .init]).1.forged .sha256 = true := by
+  refine ⟨?_, by decide +kernel⟩
+  intro k h; simp at h
+
+open Percival.Model.HashStep in
+/-- the exclusion is needed: after `addcnt` the model's digest (count says one more block than was hashed) is
+not the Spec's digest of the recorded bytes, and the line printed is a `forged` line -/
+example : (runOps {} [.slot .sha1 .init, .slot .sha1 (.addcnt 1), .slot .sha1 .fin]).2.getLast? =
+      some (.forged [90, 160, 132, 188, 252, 57, 45, 32, 9, 142, 229, 1, 206, 121, 127, 66, 101, 133, 139, 39]) ∧
+    Spec.Sha1.hash [] ≠ [90, 160, 132, 188, 252, 57, 45, 32, 9, 142, 229, 1, 206, 121, 127, 66, 101, 133, 139, 39] := by
+  decide +kernel
 
 end Percival.C01
